@@ -409,6 +409,8 @@ pub fn gen_plan(rng: &mut Prng, property: &str, tier: &Tier) -> EnvPlan {
         // and on boundary values, against a finite / co-finite reference set
         // (above 64 bits: a caller-defined element type, executed by sims/widesets.rs)
         3 | 4 if property == "C19" => *rng.pick(&[16usize, 31, 32, 33, 63, 64, 16, 32, 63, 64, 65, 72, 96]),
+        // (width 0: the universe is the single element 0)
+        5 if property == "C19" => 0,
         _ => rng.range(1, 4),
     };
     let clients = rng.range(1, tier.max_clients as usize) as u8;
@@ -894,7 +896,7 @@ pub fn gen_plan(rng: &mut Prng, property: &str, tier: &Tier) -> EnvPlan {
         hold_leaves,
         env_default: rng.chance(1, 4),
         set_bits2: if property == "C19" && rng.chance(1, 12) {
-            let w = *rng.pick(&[1usize, 2, 3, 4, 5, 6, 7, 8, 16, 33, 64, 70]);
+            let w = *rng.pick(&[0usize, 1, 2, 3, 4, 5, 6, 7, 8, 16, 33, 64, 70]);
             if w == set_bits { 0 } else { w }
         } else {
             0
